@@ -19,6 +19,8 @@ INT_RX = re.compile(r'^[ui](8|16|32|64|128|size)$')
 MAXV = {8: 255, 16: 65535, 32: (1 << 32) - 1, 64: (1 << 64) - 1, 128: (1 << 128) - 1}
 import os
 DEBUG = bool(os.environ.get('RELINV_DEBUG'))
+CAP_COMB = int(os.environ.get('RELINV_CAP_COMB', '600'))
+CAP_ROWS = int(os.environ.get('RELINV_CAP_ROWS', '700'))
 LEN_MAX = (1 << 63) - 1       # std: a slice / Vec is never longer than isize::MAX bytes
 
 
@@ -120,96 +122,224 @@ class Prover:
         return r
 
     def _entails(self, facts, goal, nonneg):
-        # relevance: facts connected to the goal through shared atoms
+        # relevance levels: facts connected to the goal through shared atoms, by distance; a proof found with fewer facts is a proof
         rel_atoms = set(atoms_of(goal))
         pool = list(facts)
+        levels = []
         chosen = []
-        changed = True
-        while changed:
-            changed = False
-            rest = []
+        for hop in range(3):
+            rest, new = [], []
             for f in pool:
-                if atoms_of(f) & rel_atoms:
-                    chosen.append(f)
-                    rel_atoms |= atoms_of(f)
-                    changed = True
-                else:
-                    rest.append(f)
+                (new if atoms_of(f) & rel_atoms else rest).append(f)
+            if not new:
+                break
+            for f in new:
+                rel_atoms |= atoms_of(f)
+            chosen = chosen + new
             pool = rest
-        if len(chosen) > 60:
-            chosen = sorted(chosen, key=lambda f: (len(f), -len(atoms_of(f) & atoms_of(goal))))[:60]
-        cs = [dict(f) for f in chosen]
-        # products with non-negative atoms for the non-linear monomials of the goal / facts
-        pairs = set()
-        for p in [goal] + cs:
-            for m in p:
-                if len(m) == 2:
-                    if m[0] in nonneg:
-                        pairs.add((m[0], m[1]))
-                    if m[1] in nonneg:
-                        pairs.add((m[1], m[0]))
-        lin = [f for f in cs if all(len(m) <= 1 for m in f)]
-        extra = {}
-        for a, other in sorted(pairs):
-            for f in lin:
-                if (other,) in f:
-                    g = pmul(f, A(a))
-                    extra.setdefault(ckey(g), g)
-        cs += list(extra.values())[:200]
-        # every monomial made of non-negative atoms is non-negative
-        monos = {m for p in cs + [goal] for m in p if m != ()}
-        for m in monos:
-            if all(a in nonneg for a in m):
-                cs.append({m: Fraction(-1)})
-        cs.append(padd(const(1), goal, -1))       # 1 - goal <= 0  (integers)
-        return fm_refute(cs, prefer=atoms_of(goal))
+            if len(chosen) > 70:
+                chosen = chosen[:70]
+                levels.append(list(chosen))
+                break
+            levels.append(list(chosen))
+        if not levels:
+            levels = [[]]
+        neg_goal = padd(const(1), goal, -1)         # facts /\ 1 - goal <= 0  (integers)
 
-
-def fm_refute(cs, prefer=()):
-    """True iff the system {p <= 0} has no rational solution (monomials = independent variables)"""
-    cs = [c for c in cs if c]
-    for _ in range(200):
-        for c in cs:
-            if not [m for m in c if m != ()] and c.get((), 0) > 0:
+        def with_nonneg(rows):
+            monos = {m for p in rows + [goal] for m in p if m != ()}
+            return rows + [{m: Fraction(-1)} for m in monos if all(a in nonneg for a in m)]
+        # stage 1: linear reasoning over monomials, every monomial of non-negative atoms is non-negative
+        levels = levels[-1:]
+        for lv in levels:
+            if lp_refute(with_nonneg([dict(f) for f in lv]), neg_goal):
                 return True
-        vars_ = {}
-        for c in cs:
-            for m, v in c.items():
-                if m != ():
-                    d = vars_.setdefault(m, [0, 0])
-                    d[0 if v > 0 else 1] += 1
-        if not vars_:
-            return False
-        # variables that occur with one sign only can be dropped together with their constraints
-        one_sided = [m for m, d in vars_.items() if d[0] == 0 or d[1] == 0]
-        if one_sided:
-            os_ = set(one_sided)
-            cs = [c for c in cs if not (set(c) & os_)]
+        # stage 2: products of linear facts with non-negative atoms, for the degree-2 monomials that occur
+        for lv in levels:
+            cs = [dict(f) for f in lv]
+            pairs = set()
+            for p in [goal] + cs:
+                for m in p:
+                    if len(m) == 2:
+                        if m[0] in nonneg:
+                            pairs.add((m[0], m[1]))
+                        if m[1] in nonneg:
+                            pairs.add((m[1], m[0]))
+            if not pairs:
+                continue
+            lin = [f for f in cs if all(len(m) <= 1 for m in f)]
+            extra = {}
+            for a, other in sorted(pairs):
+                for f in lin:
+                    if (other,) in f:
+                        g = pmul(f, A(a))
+                        extra.setdefault(ckey(g), g)
+            if not extra:
+                continue
+            if lp_refute(with_nonneg(cs + list(extra.values())[:300]), neg_goal):
+                return True
+        return False
+
+
+def lp_refute(cs, neg_goal):
+    """True iff {p <= 0 for p in cs} /\ neg_goal <= 0 has no rational solution (monomials = independent variables), decided
+    exactly by Farkas' lemma: the system is infeasible iff some y >= 0 has  sum y_j a_j = 0  and  sum y_j b_j > 0.
+    Primal simplex (Bland's rule, rational arithmetic) on  max b.y  s.t.  A^T y = 0, sum y <= 1, y >= 0."""
+    rows = [c for c in cs if c] + [neg_goal]
+    monos = sorted({m for r in rows for m in r if m != ()})
+    if not monos:
+        return any(r.get((), 0) > 0 for r in rows)
+    idx = {m: i for i, m in enumerate(monos)}
+    n, m_ = len(monos), len(rows)
+    # columns: y_0..y_{m-1}, slack ; rows: n equality rows (basic: artificial, never re-enters), 1 bound row (basic: slack)
+    ncol = m_ + 1
+    T = [[Fraction(0)] * (ncol + 1) for _ in range(n + 1)]
+    for j, r in enumerate(rows):
+        for mo, c in r.items():
+            if mo != ():
+                T[idx[mo]][j] = Fraction(c)
+        T[n][j] = Fraction(1)
+    T[n][m_] = Fraction(1)
+    T[n][ncol] = Fraction(1)
+    basis = [-1] * n + [m_]              # -1: artificial (fixed at zero)
+    obj = [Fraction(r.get((), 0)) for r in rows] + [Fraction(0)]       # maximise
+    # reduced costs z_j = obj_j - c_B B^-1 A_j ; c_B = 0 initially
+    red = list(obj)
+    val = Fraction(0)
+    for _ in range(4000):
+        enter = -1
+        for j in range(ncol):
+            if red[j] > 0:
+                enter = j
+                break
+        if enter < 0:
+            return val > 0
+        # ratio test; artificial rows with a non-zero entry pivot first (they must stay at zero)
+        leave = -1
+        for i in range(n):
+            if basis[i] == -1 and T[i][enter] != 0:
+                leave = i
+                break
+        if leave < 0:
+            best = None
+            for i in range(n + 1):
+                if basis[i] != -1 and T[i][enter] > 0:
+                    ratio = T[i][ncol] / T[i][enter]
+                    if best is None or ratio < best or (ratio == best and basis[i] < basis[leave]):
+                        best, leave = ratio, i
+            if leave < 0:
+                return True          # unbounded cannot happen (sum y <= 1); defensive
+        piv = T[leave][enter]
+        rowl = [x / piv for x in T[leave]]
+        T[leave] = rowl
+        for i in range(n + 1):
+            if i != leave and T[i][enter] != 0:
+                f = T[i][enter]
+                ri = T[i]
+                T[i] = [x - f * y for x, y in zip(ri, rowl)]
+        f = red[enter]
+        if f != 0:
+            val += f * rowl[ncol]
+            red = [x - f * y for x, y in zip(red, rowl[:ncol])]
+        basis[leave] = enter
+        if val > 0:
+            return True
+    return False
+
+
+def fm_refute(cs, neg_goal):
+    """True iff {p <= 0 for p in cs} /\ neg_goal <= 0 has no rational solution (monomials = independent variables).
+    Fourier-Motzkin on integer rows (cross-multiplication, gcd normalisation).  The facts alone are assumed satisfiable (they
+    describe a reachable state), so the search stops as soon as no row derived from the negated goal is left."""
+    import math
+
+    def to_row(c):
+        den = 1
+        for v in c.values():
+            den = den * v.denominator // math.gcd(den, v.denominator)
+        r = {m: int(v * den) for m, v in c.items()}
+        g = 0
+        for v in r.values():
+            g = math.gcd(g, abs(v))
+        if g > 1:
+            r = {m: v // g for m, v in r.items()}
+        return r
+    rows = []
+    seen = set()
+    for c in cs:
+        if not c:
             continue
-        v = min(vars_, key=lambda m: vars_[m][0] * vars_[m][1] - vars_[m][0] - vars_[m][1])
-        pos = [c for c in cs if c.get(v, 0) > 0]
-        neg = [c for c in cs if c.get(v, 0) < 0]
-        rest = [c for c in cs if c.get(v, 0) == 0]
-        if len(pos) * len(neg) > 3000:
+        r = to_row(c)
+        k = tuple(sorted(r.items()))
+        if k not in seen:
+            seen.add(k)
+            rows.append((r, False))
+    rows.append((to_row(neg_goal), True))
+    for _ in range(200):
+        tainted = False
+        for r, t in rows:
+            if len(r) == 1 and () in r and r[()] > 0:
+                return True
+            tainted = tainted or t
+        if not tainted:
             return False
-        seen = {ckey(c) for c in rest}
-        for p_ in pos:
-            for n_ in neg:
-                comb = padd({m: c / p_[v] for m, c in p_.items()}, {m: c / (-n_[v]) for m, c in n_.items()})
-                comb.pop(v, None)
+        cnt = {}
+        for r, t in rows:
+            for m, v in r.items():
+                if m != ():
+                    d = cnt.setdefault(m, [0, 0])
+                    d[0 if v > 0 else 1] += 1
+        if not cnt:
+            return False
+        one_sided = {m for m, d in cnt.items() if d[0] == 0 or d[1] == 0}
+        if one_sided:
+            rows = [(r, t) for r, t in rows if not (one_sided & r.keys())]
+            continue
+        # eliminate a variable of a tainted row first (keeps the goal-derived part small)
+        tv = set()
+        for r, t in rows:
+            if t:
+                tv |= {m for m in r if m != ()}
+        pool = [m for m in cnt if m in tv] or list(cnt)
+        v = min(pool, key=lambda m: cnt[m][0] * cnt[m][1] - cnt[m][0] - cnt[m][1])
+        pos = [(r, t) for r, t in rows if r.get(v, 0) > 0]
+        neg = [(r, t) for r, t in rows if r.get(v, 0) < 0]
+        rest = [(r, t) for r, t in rows if v not in r]
+        if len(pos) * len(neg) > CAP_COMB:
+            return False
+        seen = {tuple(sorted(r.items())) for r, t in rest}
+        for p_, tp in pos:
+            pc = p_[v]
+            for n_, tn in neg:
+                nc = -n_[v]
+                comb = {}
+                for m, c in p_.items():
+                    if m != v:
+                        comb[m] = c * nc
+                for m, c in n_.items():
+                    if m != v:
+                        x = comb.get(m, 0) + c * pc
+                        if x:
+                            comb[m] = x
+                        else:
+                            comb.pop(m, None)
                 if not comb:
                     continue
-                if not [m for m in comb if m != ()]:
-                    if comb.get((), 0) > 0:
+                if len(comb) == 1 and () in comb:
+                    if comb[()] > 0:
                         return True
                     continue
-                comb = norm(comb)
-                k = ckey(comb)
+                g = 0
+                for c in comb.values():
+                    g = math.gcd(g, abs(c))
+                if g > 1:
+                    comb = {m: c // g for m, c in comb.items()}
+                k = tuple(sorted(comb.items()))
                 if k not in seen:
                     seen.add(k)
-                    rest.append(comb)
-        cs = rest
-        if len(cs) > 2500:
+                    rest.append((comb, tp or tn))
+        rows = rest
+        if len(rows) > CAP_ROWS:
             return False
     return False
 
@@ -882,34 +1012,46 @@ class Analysis:
                 for f in p.facts.values():
                     g = psubst(f, inv) if inv else f
                     cands.setdefault(ckey(norm(g)), norm(g))
+            is_head = B in getattr(self, 'loops', {})
             # hull candidates: phi against the value it has on each incoming edge
             for i, s_ in enumerate(subs):
                 for phi, p in s_.items():
                     if p is not None:
                         for g in (padd(A(phi), p, -1), padd(p, A(phi), -1)):
                             cands.setdefault(ckey(norm(g)), norm(g))
-            for g in self.increment_candidates(preds, subs):
+            for g in (self.increment_candidates(preds, subs) if is_head else []):
                 cands.setdefault(ckey(norm(g)), norm(g))
-            for g in self.template_candidates(new):
+            for g in (self.template_candidates(new) if is_head else []):
                 cands.setdefault(ckey(norm(g)), norm(g))
         phis = set()
         for s_ in subs:
             phis |= set(s_)
         visible = self.visible_atoms(new, phis)
-        for k, f in cands.items():
+        acc = [[] for _ in preds]
+        for k, f in sorted(cands.items(), key=lambda kv: (max([len(m) for m in kv[1]] + [0]), len(kv[1]), kv[0])):
             at = atoms_of(f)
-            if not at <= visible:
+            if not f or not at <= visible:
                 continue
             ok = True
+            inst = []
             for i, p in enumerate(preds):
                 if any(a in subs[i] and subs[i][a] is None for a in at):
+                    inst.append(None)
                     continue        # vacuous for this pred (payload of a None)
                 g = psubst(f, {a: s for a, s in subs[i].items() if s is not None})
+                inst.append(g)
                 if ckey(g) in p.facts:
                     continue
-                if not self.prove(p, g):
+                if not self.prove(p, g) and not (acc[i] and self.prove(p, g, acc[i])):
                     ok = False
                     break
+            if DEBUG and B == int(os.environ.get('RELINV_JOIN', '-1')):
+                import sys as _s
+                _s.stderr.write('   join %d visit %d cand %s -> %s (failed pred %s)\n' % (B, visit, pshow(f), ok, (len(inst) - 1) if not ok else '-'))
+            if ok:
+                for i, g in enumerate(inst):
+                    if g is not None and g and [m for m in g if m != ()]:
+                        acc[i].append(g)
             if ok and not self.trivial(f):
                 new.add(f)
         return new
@@ -1005,9 +1147,20 @@ class Analysis:
                     pl = rv['op']['place']
                     if l in self.named and pl['l'] in tmp and len(pl['p']) == 1 and pl['p'][0]['k'] == 'field' and tmp[pl['l']][0] == l:
                         inc.setdefault(l, set()).add(tmp[pl['l']][1])
-                    elif l in self.named and not pl['p'] and pl['l'] in self.named and int_bits(self.local_ty(l)):
-                        related.setdefault(l, set()).add(pl['l'])
-                        related.setdefault(pl['l'], set()).add(l)
+                    elif l in self.named and not pl['p'] and int_bits(self.local_ty(l)):
+                        src = pl['l']
+                        for _ in range(4):
+                            if src in self.named:
+                                break
+                            ds = body.defs.get(src, [])
+                            if len(ds) == 1 and ds[0][0] == 'stmt' and ds[0][3]['rv']['rv'] == 'use' and is_place_op(ds[0][3]['rv']['op']) \
+                                    and not ds[0][3]['rv']['op']['place']['p']:
+                                src = ds[0][3]['rv']['op']['place']['l']
+                            else:
+                                break
+                        if src in self.named and src != l:
+                            related.setdefault(l, set()).add(src)
+                            related.setdefault(src, set()).add(l)
         out = []
         names = sorted(inc)
         for a in names:
@@ -1108,7 +1261,7 @@ class Analysis:
                 s_.ok = False
         if DEBUG:
             import sys as _s
-            _s.stderr.write('  %s: block visits=%d queries=%d\n' % (body.path, self.block_visits, self.prover.queries))
+            _s.stderr.write('  %s: block visits=%d queries=%d memo hits=%d\n' % (body.path, self.block_visits, self.prover.queries, getattr(self, 'memo_hits', 0)))
         return self
 
     def region(self, blocks, head):
@@ -1116,9 +1269,9 @@ class Analysis:
         i = 0
         skip = set()
         for b in blocks:
-            if b in skip:
+            if b in skip or b == head:
                 continue
-            if b in self.loops and b != head:
+            if b in self.loops:
                 inner = sorted(self.loops[b], key=lambda x: self.order[x])
                 self.component(b, inner)
                 skip |= self.loops[b]
@@ -1130,11 +1283,35 @@ class Analysis:
             return [self.entry_state]
         return [self.out_edges[(p, b)] for p in self.preds.get(b, []) if (p, b) in self.out_edges]
 
+    @staticmethod
+    def sig(st):
+        return (tuple(sorted((l, tuple(ckey(x) if isinstance(x, dict) else x for x in v)) for l, v in st.vals.items())), frozenset(st.facts))
+
     def component(self, h, blocks):
         lp = self.loops[h]
         for p in self.preds.get(h, []):
             if p in lp:
                 self.out_edges.pop((p, h), None)
+        key = (h, tuple((p, self.sig(self.out_edges[(p, h)])) for p in self.preds.get(h, []) if (p, h) in self.out_edges))
+        memo = self.__dict__.setdefault('memo', {})
+        if key in memo:
+            ins, outs, verdicts = memo[key]
+            self.memo_hits = getattr(self, 'memo_hits', 0) + 1
+            for b_, st_ in ins.items():
+                self.in_states[b_] = st_
+            for e in [e for e in self.out_edges if e[0] in lp]:
+                del self.out_edges[e]
+            self.out_edges.update(outs)
+            for k_, (ok_, goal_) in verdicts.items():
+                self.sites[k_].ok, self.sites[k_].goal = ok_, goal_
+            return
+        self._component(h, blocks)
+        memo[key] = ({b_: self.in_states[b_] for b_ in lp if b_ in self.in_states},
+                     {e: st_ for e, st_ in self.out_edges.items() if e[0] in lp},
+                     {k_: (s_.ok, s_.goal) for k_, s_ in self.sites.items() if s_.block in lp})
+
+    def _component(self, h, blocks):
+        lp = self.loops[h]
         self.visits[h] = 0
         for it in range(12):
             ins = self.in_edges(h)
@@ -1143,7 +1320,14 @@ class Analysis:
             st = self.join(h, ins) if len(ins) > 1 else ins[0].copy()
             old = self.in_states.get(h) if it > 0 else None
             if old is not None and old.same(st):
+                if DEBUG:
+                    import sys as _s
+                    _s.stderr.write('   comp %d stable after %d\n' % (h, it))
                 return
+            if DEBUG and it >= 4 and old is not None:
+                import sys as _s
+                dv = [l for l in set(old.vals) | set(st.vals) if old.vals.get(l) != st.vals.get(l)]
+                _s.stderr.write('   comp %d it %d: vals changed %s facts -%s +%s\n' % (h, it, dv[:6], [pshow(old.facts[k]) for k in set(old.facts) - set(st.facts)], [pshow(st.facts[k]) for k in set(st.facts) - set(old.facts)]))
             self.visits[h] = self.visits.get(h, 0) + 1
             self.transfer(h, st)
             self.region(blocks, h) if len(blocks) > 1 else None
